@@ -837,3 +837,36 @@ Theorem sami_languages_never_mix : forall cs, NoDup (map fst cs) ->
   (forall l caps, In (l, caps) cs -> Permutation (cpars l (sami_write cs)) (lang_pars caps None))
   /\ (forall cls, ~ In cls (map fst cs) -> cpars cls (sami_write cs) = []).
 Proof. intros cs N. unfold sami_write. apply (write_langs_perm cs true [] N). Qed.
+
+(* ---- wave 3: the writer model meets the WHOLE oracle ok_sami_body ------------------------------------------- *)
+From PV Require Import proofs.LangsFacts.
+
+Definition as_sset (cs : list (str * list wcue)) : sset :=
+  map (fun lc => (fst lc, map (fun c => (wc_start c, wc_text c)) (snd lc))) cs.
+
+(* domain: distinct language names, every language's cues sorted at ms resolution, no cue text equal to the blank *)
+Definition dom_sami_write (cs : list (str * list wcue)) : Prop :=
+  NoDup (map fst cs) /\ (forall l caps, In (l, caps) cs -> caps_sorted 0 caps) /\
+  (forall l caps c, In (l, caps) cs -> In c caps -> str_eqb (wc_text c) (lit "&nbsp;") = false).
+
+Lemma in_cpars : forall (s : sync) p b, In s b -> In p (snd s) -> In (fst s, snd p) (cpars (fst p) b).
+Proof.
+  intros s p b Hs Hp. unfold cpars. apply in_flat_map. exists s. split; [exact Hs|].
+  apply in_map_iff. exists p. split; [reflexivity|]. apply filter_In. split; [exact Hp|apply str_eqb_same].
+Qed.
+
+Theorem sami_write_meets_oracle : forall cs, dom_sami_write cs -> ok_sami_body (as_sset cs) (sami_write cs) = true.
+Proof.
+  intros cs (N & C & T). unfold ok_sami_body. apply andb_true_intro. split; [apply andb_true_intro; split|].
+  - apply sorted_nondecr. apply sami_syncs_sorted. destruct cs as [|[l caps] t]; [exact I|]. apply (C l caps). left. reflexivity.
+  - unfold as_sset. rewrite forallb_forall. intros lc Hlc. apply in_map_iff in Hlc. destruct Hlc as [[l caps] [<- Hin]].
+    cbn [fst snd]. rewrite (sami_language_cues cs N C T l caps Hin), map_map. cbn [fst snd].
+    apply list_eqb_refl. apply cue_eqb_refl.
+  - rewrite forallb_forall. intros s Hs. rewrite forallb_forall. intros p Hp.
+    unfold as_sset. rewrite map_map. cbn [fst].
+    destruct (smem (fst p) (map fst cs)) eqn:M; [reflexivity|]. exfalso.
+    destruct (sami_languages_never_mix cs N) as [_ O].
+    assert (NI : ~ In (fst p) (map fst cs)).
+    { intros Hin. apply mem_In in Hin. unfold mem in Hin. unfold smem in M. congruence. }
+    pose proof (in_cpars s p (sami_write cs) Hs Hp) as I. rewrite (O (fst p) NI) in I. destruct I.
+Qed.
